@@ -25,7 +25,9 @@ EXHAUSTIVE = {"quick": True, "thorough": True}
 RULE = ("exhaustive: every DAG on <=4 (quick) / <=5 (thorough) labelled nodes as ground truth, through a callable "
         "d-separation oracle (variable order and set order varied) and through independence_match (pairwise-complete "
         "list and the literal get_independencies() list), variants orig/stable/parallel, return types skeleton/pdag/dag, "
-        "max_cond_vars = n, = max degree and too small; random ground-truth DAGs on 6-8 nodes (callable oracle); "
+        "max_cond_vars = n, = max degree and too small; random ground-truth DAGs on 6-8 nodes (callable oracle; CPDAG "
+        "checked against the specification's enumeration whenever the truth has <= 11 edges), dense 6-7 node truths and "
+        "relabelled copies of the 6-node witnesses of the repaired rule-4 defect; "
         "PC.skeleton_to_pdag on random skeletons with random separating sets; PDAG.to_dag on CPDAGs and on arbitrary "
         "PDAGs with extendability decided by brute force.  Every PC output is compared with the model (same orders) and "
         "with the specification's CPDAG / class membership / consistent-extension checker.  A case is non-trivial when "
@@ -84,6 +86,14 @@ def pick_names(rng, n):
 
 
 # ------------------------------------------------------------------ cases
+R4_WITNESSES = [
+    [(0, 1), (0, 2), (0, 3), (1, 2), (3, 1), (4, 3), (5, 0), (5, 1), (5, 2), (5, 3)],
+    [(1, 0), (1, 2), (1, 3), (1, 5), (2, 0), (3, 2), (4, 3), (5, 0), (5, 2), (5, 3)],
+    [(0, 4), (1, 0), (1, 4), (1, 5), (2, 0), (3, 0), (3, 1), (3, 4), (3, 5), (4, 5)],
+    [(4, 0), (5, 0), (4, 2), (4, 3), (0, 2), (3, 5), (1, 5), (3, 0), (4, 1), (3, 2), (4, 5)],
+]
+
+
 def cases(tier, seed):
     rng = random.Random(seed)
     out = []
@@ -106,6 +116,24 @@ def cases(tier, seed):
         _, edges = common.rand_dag(rng, n, p=rng.choice([0.15, 0.25, 0.35, 0.5]))
         out.append({"kind": "rand", "n": n, "edges": edges, "oseed": rng.randint(0, 10**9),
                     "njobs": 2 if (tier == "thorough" and i % 100 == 0) else 1})
+    # truths on which rule 4 used to fire with adjacent X, Y (repaired defect ad4d524; found by random search
+    # model-vs-spec), randomly relabelled
+    nwit = 5 if tier == "quick" else 40
+    for w in R4_WITNESSES:
+        for i in range(nwit):
+            perm = list(range(6))
+            rng.shuffle(perm)
+            out.append({"kind": "rand", "n": 6, "edges": [[perm[u], perm[v]] for u, v in w],
+                        "oseed": rng.randint(0, 10**9), "njobs": 1, "src": "rule4-witness"})
+    # dense-ish 6-7 node truths with an enumerable class: the region where that rule matters
+    nden = 250 if tier == "quick" else 3000
+    for i in range(nden):
+        n = rng.choice([6, 6, 7])
+        while True:
+            _, edges = common.rand_dag(rng, n, p=rng.choice([0.4, 0.5, 0.6]))
+            if 6 <= len(edges) <= (11 if tier == "quick" else 12):
+                break
+        out.append({"kind": "rand", "n": n, "edges": edges, "oseed": rng.randint(0, 10**9), "njobs": 1, "src": "dense"})
     ns2p = 1500 if tier == "quick" else 12000
     for i in range(ns2p):
         out.append({"kind": "s2p", "n": rng.randint(3, 7), "oseed": rng.randint(0, 10**9)})
@@ -216,7 +244,7 @@ def check_pc(est, ci_test, names, idx, n, edges, drv, oracle, maxc, vars_, sord,
             p, gp = None, None
         if exact:
             if gp != spec:
-                return bad("impl!=spec:cpdag", dict(ctx, impl=gp, spec=spec))
+                return bad("impl!=spec:cpdag", dict(ctx, impl=gp, spec=spec, truth=edges))
             if all_nodes and sorted(idx[a] for a in p.nodes()) != list(range(n)):
                 return bad("impl!=spec:cpdag-nodes", dict(ctx, nodes=sorted(idx[a] for a in p.nodes())))
         if gp != mp:
@@ -334,7 +362,10 @@ def run_truth(case, drv):
     g = truth_dag(names, n, edges)
     orc = Oracle(g)
     if n <= 5:
-        for x, y in itertools.permutations(range(n), 2):   # oracle cross-check against the model's d-separation
+        prs = list(itertools.permutations(range(n), 2))
+        if light:
+            prs = rng.sample(prs, 4)
+        for x, y in prs:   # oracle cross-check against the model's d-separation
             for Z in ([], [z for z in range(n) if z not in (x, y)][:1], [z for z in range(n) if z not in (x, y)]):
                 if orc(names[x], names[y], [names[z] for z in Z]) != drv.call("c12_dsep", [list(range(n)), [list(e) for e in edges], x, y, Z]):
                     return bad("oracle!=model:dsep", {"x": x, "y": y, "Z": Z})
@@ -348,7 +379,12 @@ def run_truth(case, drv):
         exact = maxc >= md
         sp_ = spec
         if spec is None and exact:
-            sp_ = model_pc(drv, n, edges, 0, 1, maxc, list(range(n)), list(range(n)))[2]
+            if len(edges) <= 11:     # independent: the specification's CPDAG by enumeration (extracted Spec.cpdag_arcs)
+                sp_ = aset(drv.call("c12_cpdag", [list(range(n)), [list(e) for e in edges]]))
+                tags.append("n>5:spec-by-enumeration")
+            else:                    # too many orientations to enumerate: the model under the identity orders
+                sp_ = model_pc(drv, n, edges, 0, 1, maxc, list(range(n)), list(range(n)))[2]
+                tags.append("n>5:spec-by-model-other-order")
         b = check_pc(est, orc, names, idx, n, edges, drv, 0, maxc, vars_, sord, sp_, exact,
                      "data+callable", njobs=case.get("njobs", 1), light=False)
         if b:
